@@ -21,6 +21,10 @@ type Probe func() *Failure
 type SessionRun struct {
 	Probes []Probe
 	Mutate func() // damages the returned objects through their public API / returned slices; may be nil
+	// Extend does something a caller may do with results it owns that leaves their own contents intact
+	// (appending to a returned slice). It runs for EVERY step once all steps are done, oldest first; all
+	// retained results must be unaffected. May be nil.
+	Extend func()
 }
 
 // Arena hands out input memory. In reuse mode every request is served from
@@ -108,6 +112,7 @@ func RunSession[C any](sc SessCase[C], x *Ctx, run func(c C, a *Arena) (SessionR
 	}
 	arena := &Arena{}
 	var held []heldProbe
+	var extend []func()
 	repeated, mutated, reused := false, false, false
 	seen := map[int]bool{}
 	recheck := func(when string) *Failure {
@@ -144,6 +149,9 @@ func RunSession[C any](sc SessCase[C], x *Ctx, run func(c C, a *Arena) (SessionR
 			f.Key = "session-" + f.Key
 			return f
 		}
+		if r.Extend != nil {
+			extend = append(extend, r.Extend)
+		}
 		for _, p := range r.Probes {
 			if f := p(); f != nil {
 				return Failf("session-fresh-"+f.Key, "session step %d (case %d, reuse=%v, plan %+v): result differs from the model right after the call: %s", i, st.Idx, st.Reuse, sc.Plan, f.Msg)
@@ -163,6 +171,14 @@ func RunSession[C any](sc SessCase[C], x *Ctx, run func(c C, a *Arena) (SessionR
 			for _, p := range r.Probes {
 				held = append(held, heldProbe{p: p, step: i, arena: st.Reuse, idx: st.Idx})
 			}
+		}
+	}
+	if len(extend) > 0 {
+		for _, e := range extend {
+			e()
+		}
+		if f := recheck(fmt.Sprintf("the caller appended to the slices returned by the earlier steps (plan %+v)", sc.Plan)); f != nil {
+			return f
 		}
 	}
 	// filler traffic: many more calls of the same kind, results discarded
